@@ -96,4 +96,58 @@ when_kernel Gzx.Gen.K03w.code93ComputeChecksumIndex in
 theorem k_code93ComputeChecksumIndex_same :
     @Gen.K03w.code93ComputeChecksumIndex = @Gen.K10.code93ComputeChecksumIndex := rfl
 
+/-! ## `code93AppendPattern` -/
+
+/-- a loop that writes cell `p + i` in iteration `i` -/
+theorem fill_off {ρ : Type} (body : Int → List Int → Ctl (List Int) ρ) (f : Nat → Int) (N p : Nat)
+    (hb : ∀ i, i < N → ∀ xs, body (i : Int) xs = tryC (setIdx xs ((p : Int) + (i : Int)) (f i)) fun t => .next t) :
+    ∀ (n m : Nat) (done rest : List Int), done.length = p + m → m + n ≤ N → n ≤ rest.length →
+      loop body 1 n (m : Int) (done ++ rest) = .next (done ++ (List.range' m n).map f ++ rest.drop n) := by
+  intro n
+  induction n with
+  | zero => intro m done rest _ _ _; simp [loop]
+  | succ n ih =>
+    intro m done rest hd hN hr
+    cases rest with
+    | nil => simp at hr
+    | cons r rs =>
+      have ep : (p : Int) + (m : Int) = (done.length : Int) := by omega
+      rw [loop_succ, hb m (by omega), ep, setIdx_at]
+      simp only [tryC_ok]
+      have e1 : done ++ f m :: rs = (done ++ [f m]) ++ rs := by simp
+      have e2 : (m : Int) + 1 = ((m + 1 : Nat) : Int) := by omega
+      rw [e1, e2, ih (m + 1) _ _ (by simp; omega) (by omega) (by simpa using hr)]
+      simp [List.range'_succ]
+
+/-- the module the Code 93 writer stores for bit `i` of the encoding word `a` -/
+def v93 (a i : Nat) : Int := b2i ((bitsMSB 9 a)[i]?.getD false)
+
+set_option maxRecDepth 100000 in
+when_kernel Gzx.Gen.K03w.code93AppendPattern in
+theorem v93_bit : ∀ a ∈ refTables.code93Enc, ∀ i : Nat, i < 9 →
+    b2i ((GoVal.iand (a : Int) (GoVal.ishl 1 (wrap 64 (8 - (i : Int))))) != 0) = v93 a i := by decide
+
+theorem v93_all : ∀ a ∈ refTables.code93Enc, (List.range' 0 9).map (v93 a) = b01 (bitsMSB 9 a) := by decide
+
+when_kernel Gzx.Gen.K03w.code93AppendPattern in
+/-- `code93AppendPattern(target, pos, a)` for every word of the Code 93 table, every target and every position inside it:
+    the nine modules `bitsMSB 9 a` written behind `done` and 9 returned, when at least nine cells are left.
+    FULL statement: every `a`, and the index panic when fewer than nine cells are left; missing: the bit test is checked
+    word by word for the table only, the overflow case is not stated. -/
+theorem k_code93AppendPattern_partial (a : Nat) (ha : a ∈ refTables.code93Enc) (done rest : List Int) (hr : 9 ≤ rest.length) :
+    Gen.K03w.code93AppendPattern (done ++ rest) (done.length : Int) (a : Int) =
+      .ok (9, done ++ b01 (bitsMSB 9 a) ++ rest.drop 9) := by
+  simp only [Gen.K03w.code93AppendPattern]
+  have h := fill_off (ρ := Int × List Int) (Gen.K03w.code93AppendPattern_body1 (done.length : Int) (a : Int)) (v93 a) 9 done.length
+    (fun i hi xs => by
+      simp only [Gen.K03w.code93AppendPattern_body1]
+      rw [v93_bit a ha i hi]) 9 0 done rest (by simp) (by omega) hr
+  have e9 : tripUp 0 9 1 = 9 := by decide
+  rw [e9, show ((0 : Int) = ((0 : Nat) : Int)) from rfl, h]
+  simp [v93_all a ha]
+
+when_kernel Gzx.Gen.K03w.code93AppendPattern in
+example : Gen.K03w.code93AppendPattern [0, 0, 0, 0, 0, 0, 0, 0, 0, 0, 0] 1 350 = .ok (9, [0, 1, 0, 1, 0, 1, 1, 1, 1, 0, 0]) := by
+  decide
+
 end Gzx.Obligations.K03w
